@@ -4,11 +4,13 @@
 \* them on the real store / queue controller / jobconfig controller and continues with seeded random steps.
 EXTENDS JobQueue_Sim, TLCExt
 CONSTANTS K, Goals
+VARIABLE lastact     \* the label of the last step (part of the VIEW: "the controller has just restarted" is a goal ingredient)
 
 GView == <<now, api, cache, evq, storeq, counter, wq, timer, retry, iq, itimer, iretry, sync, isync,
-           jcapi, jccache, jcevq, jq, jretry, jsync, seen, faults, crashes, touches>>
-GInit == SInit /\ \A i \in 1..6 : TLCSet(i, 0)
-GSpec == GInit /\ [][SNext]_svars
+           jcapi, jccache, jcevq, jq, jretry, jsync, seen, faults, crashes, touches, lastact>>
+GInit == SInit /\ lastact = "Init" /\ \A i \in 1..6 : TLCSet(i, 0)
+GNext == SNext /\ lastact' = sched'[Len(sched')].a
+GSpec == GInit /\ [][GNext]_<<svars, lastact>>
 
 Listed(c) == jcapi[c].active \cup jcapi[c].queued
 \* the jobconfig controller's own status write has not reached its JobConfig cache, and a Job that this status lists
@@ -29,15 +31,15 @@ G_TwoQueuedCapacityFreed ==
         /\ j < k /\ api[j].jc = c /\ api[k].jc = c /\ Queued(api[j]) /\ Queued(api[k]) /\ api[j].pol = "Enqueue" /\ api[k].pol = "Enqueue"
         /\ api[j].sa <= now /\ api[k].sa <= now /\ ~sync.busy
         /\ TrueActive(api, c) < MaxC[c] /\ counter[c] >= MaxC[c]
-\* the controller restarted while a due Job of a JobConfig was queued and another one active
+\* the controller has just restarted while a due Job of a JobConfig was queued and another one active
 G_RestartWithQueued ==
-    /\ crashes > 0 /\ \E j \in Jobs : api[j].jc # 0 /\ Queued(api[j]) /\ api[j].sa <= now /\ ~api[j].adm
+    /\ lastact = "CrashRestart" /\ \E j \in Jobs : api[j].jc # 0 /\ Queued(api[j]) /\ api[j].sa <= now /\ ~api[j].adm
     /\ \E k \in Jobs : Active(api[k]) /\ api[k].jc # 0
 
-\* the controller restarted while an active Job of a JobConfig was being deleted (deletionTimestamp set, not yet finished)
+\* the controller has just restarted while an active Job of a JobConfig was being deleted (deletionTimestamp set, not yet finished)
 \* and another Job of that JobConfig was waiting
 G_RestartWithDeletingActive ==
-    /\ crashes > 0
+    /\ lastact = "CrashRestart"
     /\ \E k \in Jobs : Active(api[k]) /\ api[k].del /\ api[k].jc # 0
                        /\ \E j \in Jobs : api[j].jc = api[k].jc /\ Queued(api[j]) /\ api[j].sa <= now /\ ~api[j].adm /\ api[j].pol # "Allow"
 
